@@ -118,6 +118,15 @@ T: Dict[str, Tuple[dict, dict, str]] = {
     "underscore_reader": ({"xs": "list"}, {"acc": "int"}, "acc = 0\nfor x in xs:\n    _ = x * {p}\n    acc += _\n"),
     "static_method_first_line": ({"n": "int"}, {"acc": "int"},
                                  "class Tool:\n    @staticmethod\n    def twice(v):\n        return v * 2 + {p}\nacc = Tool.twice(n) + Tool().twice(1)\n"),
+    "two_classes_same_method": ({"n": "int"}, {"acc": "int"},
+                                "class Plain:\n    def __init__(self, base):\n        self.base = base\n    def helper(self, v):\n        return self.base + v\n"
+                                "    def run(self, v):\n        return self.helper(v) * 2\nclass Utils:\n    @staticmethod\n    def helper(v):\n        return v + {p}\n"
+                                "    def run(self, v):\n        return self.helper(v) * 3\nacc = Plain(n).run(1) * 100 + Utils().run(2)\n"),
+    "chained_compare_branches": ({"n": "int"}, {"acc": "int"},
+                                 "def pick(v):\n    if 0 < v < {p} + 4:\n        pass\n    else:\n        return -1\n    return v\nacc = pick(n) * 100 + pick(0) * 10 + pick(9)\n"),
+    "chained_compare_loop": ({"xs": "list"}, {"out": "list"},
+                             "out = []\nfor x in xs:\n    if {p} <= x <= 3:\n        out.append(x)\n        out.append(x * 2)\n        out.append(x * 3)\n"),
+    "or_filter_range": ({}, {"out": "list"}, "out = [x for x in range(10) if x < {p} or x > 7]\n"),
     "with_nullcontext": ({"n": "int"}, {"acc": "int"}, "import contextlib\nwith contextlib.nullcontext(n + {p}) as got:\n    acc = got\n"),
 }
 
